@@ -145,6 +145,33 @@ Definition gl_integrate (f : T -> res T) (a b : T) (n : Z) : res T :=
   let* fv := mapM f (map fst rw) in
   Ok (fold_left (fun acc p => (acc + fst p * snd p)%num) (combine fv (map snd rw)) (n0 Ops)).
 
+(** The two overloads the first one ends in (public entry points of their own), with their std::exit branches:
+<<
+	double Integrate_Gauss_Legendre(std::function<double(double)> func, std::vector<std::vector<double>> roots_and_weights)
+	{	std::vector<double> function_values(roots_and_weights.size(), 0.0);
+		for(unsigned int i = 0; i < roots_and_weights.size(); i++) function_values[i] = func(roots_and_weights[i][0]);
+		return Integrate_Gauss_Legendre(function_values, roots_and_weights); }
+	double Integrate_Gauss_Legendre(std::vector<double> function_values, std::vector<std::vector<double>> roots_and_weights)
+	{	if(function_values.size() != roots_and_weights.size()) { std::cerr << ...; std::exit(EXIT_FAILURE); }
+		for(unsigned int i = 0; i < roots_and_weights.size(); i++)
+			if(roots_and_weights[i].size() != 2) { std::cerr << ...; std::exit(EXIT_FAILURE); }
+		double integral = 0.0;
+		for(unsigned int i = 0; i < function_values.size(); i++) integral += function_values[i] * roots_and_weights[i][1];
+		return integral; }
+>>
+    [gl_integrate] above is the first overload with the table it has just built; C13_Proofs_GL.v shows that it equals the chain through
+    these two for every input (their exit branches are unreachable from it). *)
+Definition gl_sum_rows (fv : list T) (rows : list (list T)) : res T :=
+  if negb (Nat.eqb (List.length fv) (List.length rows)) then Exit
+  else if negb (forallb (fun row => Nat.eqb (List.length row) 2) rows) then Exit
+  else Ok (fold_left (fun acc p => (acc + fst p * nth 1 (snd p) (n0 Ops))%num) (combine fv rows) (n0 Ops)).
+
+Definition gl_fun_rows (f : T -> res T) (rows : list (list T)) : res T :=
+  let* fv := mapM f (map (fun row => nth 0 row (n0 Ops)) rows) in
+  gl_sum_rows fv rows.
+
+Definition gl_rows (rw : list (T * T)) : list (list T) := map (fun p => [fst p; snd p]) rw.
+
 (** ** Section 1.1: Find_Epsilon, Adaptive_Simpson_Integration, Integrate(func,a,b,epsilon,maxRecursionDepth), local copy *)
 Definition find_epsilon (f : T -> res T) (a b precision : T) : res T :=
   let c := ((a + b) / #2)%num in
